@@ -9,16 +9,29 @@ package main
 var confirmedCounts = map[string]map[string][2]int{ // rule -> prop -> {default, vectors}
 	"R1":  {"C10": {5, 5}, "C11": {11, 11}},
 	"R2":  {"C11": {27, 52}, "C16": {2, 42}, "C20": {7, 7}},
+	"R3":  {"C11": {24, 24}},
+	"R4":  {"C03": {11, 11}, "C11": {11, 11}},
 	"R6":  {"C16": {0, 30}, "C17": {28, 28}, "C18": {19, 44}, "C19": {19, 74}, "C20": {9, 9}},
 	"R7":  {"C17": {25, 28}, "C19": {22, 25}},
 	"R8":  {"C18": {12, 15}},
-	"R9":  {"C20": {13, 13}},
+	"R9":  {"C20": {14, 14}},
 	"R10": {"C10": {61, 70}},
 	"R11": {"C07": {3, 3}, "C08": {3, 3}},
 	"R12": {"C07": {16, 17}},
+	"R13": {"C01": {5, 5}, "C03": {5, 5}, "C06": {9, 9}, "C09": {9, 9}},
+	"R14": {"C01": {28, 28}, "C04": {28, 28}, "C09": {28, 28}},
+	"R15": {"C03": {4, 4}, "C04": {8, 8}, "C05": {2, 2}},
 	"R16": {"C05": {2, 2}},
+	"R17": {"C05": {4, 4}, "C06": {4, 4}},
+	"R18": {"C06": {2, 2}, "C13": {4, 4}, "C15": {0, 3}},
+	"R19": {"C02": {6, 6}},
+	"R20": {"C03": {2, 2}},
 	"R21": {"C16": {0, 4}},
 	"R22": {"C16": {0, 16}},
+	"R23": {"C14": {0, 14}},
+	"R24": {"C05": {4, 4}, "C06": {5, 5}, "C13": {2, 2}, "C15": {1, 3}},
+	"R25": {"C05": {6, 6}, "C06": {16, 16}, "C13": {9, 9}, "C15": {1, 5}},
+	"R26": {"C02": {1, 1}, "C03": {4, 4}, "C04": {3, 3}, "C05": {5, 5}, "C06": {4, 4}, "C13": {2, 2}},
 }
 
 func floorFor(rule string) func(cfg Config, prop string) int {
